@@ -10,19 +10,20 @@ From Coq Require Import Sorted Permutation.
 Open Scope nat_scope.
 
 (* ---------- the grammar with side conditions ---------- *)
-(* citems Pc Ph l: the grammar of GrammarAll.v with an arbitrary premise `Pc cond` in the control-statement
-   rule (items_of has `no_throws_kw cond`) and an extra premise `Ph hd` in the function rule; the theorems
+(* citems Pc Ph l: the grammar of GrammarAll.v with an arbitrary premise `Pc (words ++ cond)` in the control-statement
+   rule (items_of has `no_throws_kw (words ++ cond)`) and an extra premise `Ph hd` in the function rule; the theorems
    below are proved for citems so that they apply to other restrictions of the grammar as well *)
 Inductive citems (Pc Ph : list token -> Prop) (l : language) : nat -> list token -> list fdesc -> Prop :=
 | ci_nil off : citems Pc Ph l off [] []
 | ci_stmt off s r ds :
     simple_stmt s -> citems Pc Ph l (off + length s) r ds -> citems Pc Ph l off (s ++ r) ds
-| ci_ctrl off kw cond o body c r ds1 ds2 :
-    is_keyword kw = true -> (cond = [] \/ groups cond) -> Pc cond ->
+| ci_ctrl off kw words cond o body c r ds1 ds2 :
+    is_keyword kw = true -> forallb word_tok words = true ->
+    (cond = [] \/ (groups cond /\ is_name (last (kw :: words) kw) = false)) -> Pc (words ++ cond) ->
     is_lbrace o = true -> is_rbrace c = true ->
-    citems Pc Ph l (off + 1 + length cond + 1) body ds1 ->
-    citems Pc Ph l (off + 1 + length cond + 1 + length body + 1) r ds2 ->
-    citems Pc Ph l off (kw :: cond ++ o :: body ++ c :: r) (ds1 ++ ds2)
+    citems Pc Ph l (off + 1 + length words + length cond + 1) body ds1 ->
+    citems Pc Ph l (off + 1 + length words + length cond + 1 + length body + 1) r ds2 ->
+    citems Pc Ph l off (kw :: words ++ cond ++ o :: body ++ c :: r) (ds1 ++ ds2)
 | ci_func off pre hd nm_off hend_off o body c r ds1 ds2 :
     forallb (prefix_word l) pre = true -> fhead l hd nm_off hend_off -> Ph hd ->
     is_lbrace o = true -> is_rbrace c = true ->
@@ -55,8 +56,9 @@ Record oksel (Pc : list token -> Prop) (l : language) (c : cand_fn) (f : follow_
     o_f : fshift f;
     o_stmt : forall s B, simple_stmt s -> no_acc c f s B;
     o_symbol : forall t s B, is_symbol t s = true -> no_acc c f [t] B;
-    o_ctrl : forall kw cond o B, is_keyword kw = true -> (cond = [] \/ groups cond) -> Pc cond -> is_lbrace o = true ->
-             no_acc c f (kw :: cond ++ [o]) B;
+    o_ctrl : forall kw words cond o B, is_keyword kw = true -> forallb word_tok words = true ->
+             (cond = [] \/ (groups cond /\ is_name (last (kw :: words) kw) = false)) -> Pc (words ++ cond) ->
+             is_lbrace o = true -> no_acc c f (kw :: words ++ cond ++ [o]) B;
     o_prefix : forall pre B, forallb (prefix_word l) pre = true -> hd_ok word B -> no_acc c f pre B }.
 
 Lemma good_oksel Pc l c f : good l c f -> oksel Pc l c f.
@@ -66,7 +68,7 @@ Proof.
   - apply (g_f _ _ _ G).
   - apply (stmt_no_acc l c f G).
   - apply (symbol_no_acc l c f G).
-  - intros kw cond o B Hkw Hcond _ Ho. apply (ctrl_front_no_acc l c f G); assumption.
+  - intros kw words cond o B Hkw Hwords Hcond _ Ho. apply (ctrl_front_no_acc l c f G); assumption.
   - apply (prefix_no_acc l c f G).
 Qed.
 
@@ -87,18 +89,21 @@ Section OneSelection.
   Lemma seg_symbol off t s B : is_symbol t s = true -> Seg c f off [t] B [].
   Proof. intros Hs. apply (Seg_none c f Hc Hf). apply (o_symbol _ _ _ _ G t s). exact Hs. Qed.
 
-  Lemma seg_ctrl off kw cond o body cl r B hb hr :
-    is_keyword kw = true -> (cond = [] \/ groups cond) -> Pc cond -> is_lbrace o = true -> is_rbrace cl = true ->
-    Seg c f (off + 1 + length cond + 1) body (([cl] ++ r) ++ B) hb ->
-    Seg c f (off + 1 + length cond + 1 + length body + 1) r B hr ->
-    Seg c f off (kw :: cond ++ o :: body ++ cl :: r) B (hb ++ hr).
+  Lemma seg_ctrl off kw words cond o body cl r B hb hr :
+    is_keyword kw = true -> forallb word_tok words = true ->
+    (cond = [] \/ (groups cond /\ is_name (last (kw :: words) kw) = false)) -> Pc (words ++ cond) ->
+    is_lbrace o = true -> is_rbrace cl = true ->
+    Seg c f (off + 1 + length words + length cond + 1) body (([cl] ++ r) ++ B) hb ->
+    Seg c f (off + 1 + length words + length cond + 1 + length body + 1) r B hr ->
+    Seg c f off (kw :: words ++ cond ++ o :: body ++ cl :: r) B (hb ++ hr).
   Proof.
-    intros Hkw Hcond HPc Ho Hcl Hb Hr.
-    replace (kw :: cond ++ o :: body ++ cl :: r) with ((kw :: cond ++ [o]) ++ body ++ [cl] ++ r) by (norm_app; reflexivity).
+    intros Hkw Hwords Hcond HPc Ho Hcl Hb Hr.
+    replace (kw :: words ++ cond ++ o :: body ++ cl :: r) with ((kw :: words ++ cond ++ [o]) ++ body ++ [cl] ++ r)
+      by (norm_app; reflexivity).
     change (hb ++ hr) with ([] ++ hb ++ [] ++ hr).
     apply Seg_app.
     { apply (Seg_none c f Hc Hf). apply (o_ctrl _ _ _ _ G); assumption. }
-    replace (off + length (kw :: cond ++ [o])) with (off + 1 + length cond + 1) by (norm_len; lia).
+    replace (off + length (kw :: words ++ cond ++ [o])) with (off + 1 + length words + length cond + 1) by (norm_len; lia).
     apply Seg_app; [exact Hb|].
     apply Seg_app; [eapply seg_symbol; exact Hcl|].
     cbn [length]. exact Hr.
@@ -149,7 +154,7 @@ Section TwoSelections.
     Seg c1 f1 off ts B h1 /\ Seg c2 f2 off ts B h2 /\ Permutation (h1 ++ h2) (map header_of ds).
   Proof.
     induction 1 as [off|off s r ds Hs Hr IH
-                   |off kw cond o body c r ds1 ds2 Hkw Hcond HPc Ho Hc Hb IHb Hr IHr
+                   |off kw words cond o body c r ds1 ds2 Hkw Hwords Hcond HPc Ho Hc Hb IHb Hr IHr
                    |off pre hd nm_off hend_off o body c r ds1 ds2 Hpre Hhd HPh Ho Hc Hb IHb Hflat Hr IHr]; intros B.
     - exists [], []. split; [apply Seg_nil|]. split; [apply Seg_nil | constructor].
     - destruct (IH B) as (h1 & h2 & S1 & S2 & HP). exists h1, h2.
@@ -359,22 +364,22 @@ Theorem items_of_no_drop l off ts ds : items_of l off ts ds ->
   forall P B, length P = off -> last_ok P -> Forall (fun d => java_drop (P ++ ts ++ B) (header_of d) = false) ds.
 Proof.
   induction 1 as [off|off s r ds Hs Hr IH
-                 |off kw cond o body c r ds1 ds2 Hkw Hcond Hnt Ho Hc Hb IHb Hr IHr
+                 |off kw words cond o body c r ds1 ds2 Hkw Hwords Hcond Hnt Ho Hc Hb IHb Hr IHr
                  |off pre hd nm_off hend_off o body c r ds1 ds2 Hpre Hhd Ho Hc Hb IHb Hflat Hr IHr]; intros P B HP HL.
   - constructor.
   - replace (P ++ (s ++ r) ++ B) with ((P ++ s) ++ r ++ B) by (norm_app; reflexivity).
     apply IH; [norm_len; lia|]. destruct Hs as (body & semi & -> & _ & Hsemi).
     rewrite app_assoc. apply last_ok_snoc. eapply symbol_no_drop; exact Hsemi.
   - apply Forall_app. split.
-    + replace (P ++ (kw :: cond ++ o :: body ++ c :: r) ++ B)
-        with ((P ++ kw :: cond ++ [o]) ++ body ++ (c :: r ++ B)) by (norm_app; reflexivity).
+    + replace (P ++ (kw :: words ++ cond ++ o :: body ++ c :: r) ++ B)
+        with ((P ++ kw :: words ++ cond ++ [o]) ++ body ++ (c :: r ++ B)) by (norm_app; reflexivity).
       apply IHb; [norm_len; lia|].
-      replace (P ++ kw :: cond ++ [o]) with ((P ++ kw :: cond) ++ [o]) by (norm_app; reflexivity).
+      replace (P ++ kw :: words ++ cond ++ [o]) with ((P ++ kw :: words ++ cond) ++ [o]) by (norm_app; reflexivity).
       apply last_ok_snoc. eapply symbol_no_drop; exact Ho.
-    + replace (P ++ (kw :: cond ++ o :: body ++ c :: r) ++ B)
-        with ((P ++ kw :: cond ++ o :: body ++ [c]) ++ r ++ B) by (norm_app; reflexivity).
+    + replace (P ++ (kw :: words ++ cond ++ o :: body ++ c :: r) ++ B)
+        with ((P ++ kw :: words ++ cond ++ o :: body ++ [c]) ++ r ++ B) by (norm_app; reflexivity).
       apply IHr; [norm_len; lia|].
-      replace (P ++ kw :: cond ++ o :: body ++ [c]) with ((P ++ kw :: cond ++ o :: body) ++ [c]) by (norm_app; reflexivity).
+      replace (P ++ kw :: words ++ cond ++ o :: body ++ [c]) with ((P ++ kw :: words ++ cond ++ o :: body) ++ [c]) by (norm_app; reflexivity).
       apply last_ok_snoc. eapply symbol_no_drop; exact Hc.
   - constructor; [|apply Forall_app; split].
     + unfold header_of. cbn [fd_name fd_start fd_hend].
